@@ -517,6 +517,12 @@ func (m *ModuleInstance) resolveImports(ctx context.Context, module *Module) (er
 					err = errorMaxSizeMismatch(i, expected.Max, importedMemory.Max)
 					return
 				}
+
+				// The shared flag is part of the memory type: the compiled code of the importer relies on it.
+				if expected.IsShared != importedMemory.Shared {
+					err = errorInvalidImport(i, fmt.Errorf("shared flag mismatch: %v != %v", expected.IsShared, importedMemory.Shared))
+					return
+				}
 				m.MemoryInstance = importedMemory
 				m.Engine.ResolveImportedMemory(importedModule.Engine)
 			case ExternTypeGlobal:
